@@ -207,6 +207,12 @@ fn build_block(c: &Case, ks: &Keys, r: &mut Rng, salt: u64) -> Block {
         data.extend((i as u32).to_be_bytes());
         let dl = r.below(40) as usize;
         data.extend(r.bytes(dl));
+        if t.gt {
+            // a golden ticket payload is exactly 97 bytes (a tree with the payload check refuses anything else)
+            let fill = r.bytes(97);
+            data.extend(fill);
+            data.truncate(97);
+        }
         tx.data = data;
         for (j, k) in t.from.iter().enumerate() {
             let mut s = Slip::default();
